@@ -9,7 +9,8 @@
 From Emmet Require Import lib.Base model.MarkupTokenizer model.MarkupParser model.MarkupConvert model.MarkupBem
      model.MarkupResolve model.MarkupExpand gen.GenMarkupSnippets
      proofs.MarkupTokenizerProofs proofs.SafeTokenizer proofs.SafeParser proofs.SafeConvert proofs.SafeResolve
-     proofs.SafeExpand proofs.SafeBridge proofs.SafeBridgeTok proofs.BemProofs proofs.SafeFormat proofs.SafeFull.
+     proofs.SafeExpand proofs.SafeBridge proofs.SafeBridgeTok proofs.BemProofs proofs.SafeFormat proofs.SafeFull
+     model.MarkupLorem proofs.LoremProofs proofs.LoremFill.
 
 (* ---- stage 1: tokenizer, for ALL strings: tokens that tile the input, or the scanner error inside the input *)
 Theorem C07_tokenize_safe : forall s,
@@ -88,10 +89,44 @@ Theorem C07_bem_safe : forall cfg anc n, exists r, bem cfg anc n = Ok r.
 Proof. exact bem_ok. Qed.
 Print Assumptions C07_bem_safe.
 
-(* hence the whole transform pass, for ALL configurations (bem.enabled or not) and ALL trees *)
-Theorem C07_transform_safe : forall cfg l, exists r, transform_list cfg l = Ok r.
+(* hence the whole transform pass after the lorem draws, for ALL configurations (bem.enabled or not) and ALL trees *)
+Theorem C07_transform_forest_safe : forall cfg l, exists r, transform_forest cfg l = Ok r.
+Proof. exact transform_forest_total. Qed.
+Print Assumptions C07_transform_forest_safe.
+
+(* ---- stage 5a: lorem text (model/MarkupLorem.v; props/Lorem.v has the statements about the text itself).  The
+   generator has explicit raise sites (db['words'][randint(0, l-1)], val[randint(0, len(val)-1)], words[pos][-1],
+   randint on an empty range) and reads its random numbers from the ORACLE stream of the configuration
+   ([mc_draws]: raw integers, randint(a, b) = a + raw mod (b - a + 1)).  For ALL forests and ALL streams the drawing
+   pass returns the forest with the paragraphs written in ([node_filled]: only values change, only under a lorem
+   header) or runs out of draws (LExhausted -> OutOfFuel); never Internal, never a parse error, and the fuel of
+   the `while total_words < word_count` loop never runs out first (LFuel is unreachable) *)
+Theorem C07_lorem_pass_safe : forall draws l,
+  match lorem_fill draws l with
+  | Ok l' => Forall2 (node_filled None) l l'
+  | OutOfFuel => lorem_fill_list l draws = LExhausted
+  | ParseErr _ _ => False
+  | Internal _ => False
+  end.
+Proof. exact lorem_fill_safe. Qed.
+Print Assumptions C07_lorem_pass_safe.
+
+(* walk(abbr, transform, config) = the lorem draws, then transform_forest: a forest, or OutOfFuel exactly when the
+   oracle stream ran out inside the lorem pass; total as before when no name of the forest is a lorem header *)
+Theorem C07_transform_safe : forall cfg l,
+  match transform_list cfg l with
+  | Ok _ => True
+  | OutOfFuel => lorem_fill_list l (mc_draws cfg) = LExhausted
+  | ParseErr _ _ => False
+  | Internal _ => False
+  end.
 Proof. exact transform_total. Qed.
 Print Assumptions C07_transform_safe.
+
+Theorem C07_transform_safe_lorem_free : forall cfg l,
+  forallb lorem_free l = true -> exists r, transform_list cfg l = Ok r.
+Proof. exact transform_total_free. Qed.
+Print Assumptions C07_transform_safe_lorem_free.
 
 (* Formatters: total by construction (`stringify_markup` returns a plain value, not `res`; no fuel): see
    proofs/SafeFormat.v. *)
@@ -117,13 +152,17 @@ Print Assumptions C07_parser_output_convertible.
    str/list/none, variables, context, comments, JSX, BEM (bem.enabled, every element/modifier separator, every
    context class), every output option, every repeat limit):
    expand returns a value, or one of the two parse errors with 0 <= position <= length of the abbreviation (or no
-   position); never Internal, never OutOfFuel.
+   position); never Internal; OutOfFuel ONLY when the abbreviation contains lorem nodes and the oracle stream of random
+   draws of the configuration ran out while their text was generated ([draws_exhausted]: parse and snippet
+   resolution succeeded and the lorem pass on the resolved forest ended in LExhausted) -- for EVERY stream.
+   LOREM abbreviations are covered.  SafeExpand.safe_or_exhausted cfg s r :=
+     match r with OutOfFuel => draws_exhausted cfg s | _ => safe_outcome (length s) r end.
    markup.href (URL / e-mail detection on the wrap text, model/MarkupHref.v) is part of the model and hence of this
    theorem for every value of the option; props/Href.v: it adds no failure (Href_same_outcome).
-   Not in the model (hence not in this theorem; implementation oracle only): lorem text generation,
+   Not in the model (hence not in this theorem; implementation oracle only):
    user callbacks other than the identity; CPython's recursion limit (known finding). *)
 Theorem C07_expand_safe : forall x s,
-  wf_cfg (xc_m x) -> safe_outcome (length s) (expand_markup_str x s).
+  wf_cfg (xc_m x) -> safe_or_exhausted (xc_m x) s (expand_markup_str x s).
 Proof. exact expand_safe. Qed.
 Print Assumptions C07_expand_safe.
 
@@ -133,13 +172,13 @@ Print Assumptions C07_expand_safe.
    a malformed USER snippet, e.g. snippets {bad: 'aaaaaaaaaaaa[${'} and abbreviation 'bad' -> ScannerException pos 15) *)
 Theorem C07_expand_safe_any_table : forall x s,
   match expand_markup_str x s with
+  | OutOfFuel => draws_exhausted (xc_m x) s          (* the lorem oracle ran out, as in C07_expand_safe *)
   | Ok _ => True
   | ParseErr k None => k = EK_Token
   | ParseErr k (Some p) =>
       (k = EK_Scanner \/ k = EK_Token) /\
       exists v, In v (s :: map snd (mc_snippets (xc_m x))) /\ (0 <= p <= Z.of_nat (length v))%Z
   | Internal _ => False
-  | OutOfFuel => False
   end.
 Proof. exact expand_safe_general. Qed.
 Print Assumptions C07_expand_safe_any_table.
